@@ -18,7 +18,9 @@ for pid, ks in srctie.KERNELS.items():
             pins["%s::%s" % (sp["file"], sp["func"])] = [a.arg for a in fn.args.args] + ["*" + a.arg for a in fn.args.kwonlyargs]
             if fn.decorator_list:
                 pins["%s::%s#decorators" % (sp["file"], sp["func"])] = [ast.unparse(d) for d in fn.decorator_list]
-            if sp.get("pin_skeleton"):
+            if sp.get("kind") == "raises" or sp.get("pairwise") or sp.get("pin_function"):
+                pins["%s::%s#text" % (sp["file"], sp["func"])] = srctie.function_text(fn)
+            if sp.get("pin_skeleton") or sp.get("kind") == "local":
                 pins["%s::%s#skeleton:%s" % (sp["file"], sp["func"], sp["target"])] = srctie.kernel_skeleton(fn, sp["target"])
 pins["#auto_unsqueeze_args"] = srctie.decorator_source(repo)
 out = os.path.join(os.path.dirname(os.path.abspath(__file__)), "..", "harness", "srctie_params.json")
